@@ -104,3 +104,12 @@ package database
 //@   assert @call:database.(*ScriptView).writeCreateSQLForAColumn [creates-the-new-definition] arg1 == entityNew.AttrDefs[attrNameNew] && arg2 == tableName && arg3 == attrNameNew && entityOld.AttrDefs[attrNameNew] == nil
 //@   assert @call:database.(*ScriptView).writeModifySQLForAColumn [compares-old-with-new] arg1 == entityOld.AttrDefs[attrNameNew] && arg2 == entityNew.AttrDefs[attrNameNew] && arg3 == tableName && arg4 == attrNameNew && arg1 != nil
 //@   loop 1 step [new-column-created-or-compared] (attrTypeOld == nil ==> ghost("created")) && (attrTypeOld != nil ==> ghost("compared"))
+
+// One script per application: whatever is generated for an application starts from an emptied builder, so the delta of
+// one application never carries statements generated for the application before it.
+//@ func (*ScriptView).ProcessModSysls
+//@   maypanic
+//@   ghostclear @iter:0 emptied
+//@   ghostset @call:strings.(*Builder).Reset emptied
+//@   assert @call:database.(*ScriptView).processTablesForModifiedApps [script-starts-from-an-emptied-builder] ghost("emptied")
+//@   assert @call:database.(*ScriptView).GenerateDatabaseScriptCreate [script-starts-from-an-emptied-builder] ghost("emptied")
